@@ -459,7 +459,17 @@ func genStressCase(rt *rapid.T) (ExecCase, *Path) {
 		}
 	}
 	var cond *Node
-	switch g.choose("shape", 40, 30, 30) {
+	switch g.choose("shape", 30, 25, 25, 20) {
+	case 3:
+		// an operand rooted at $ that depends on the row through a subscript: it is a different
+		// sequence for every row, on whichever side of the comparison it stands
+		rootDep := &Node{K: KRoot, Next: &Node{K: KKey, S: g.pick([]string{"arr", "i", "p"}, "rk"), Next: &Node{K: KIdx, Subs: []Sub{{From: sbound()}}}}}
+		own := &Node{K: KCur, Next: &Node{K: KKey, S: g.pick([]string{"pick", "s", "arr"}, "ok"), Next: g.chain(gctx{}, g.n(2, "ol"))}}
+		if g.chance(50, "side") {
+			cond = &Node{K: KBin, S: g.pick(cmpOps, "rop"), A: own, B: rootDep}
+		} else {
+			cond = &Node{K: KBin, S: g.pick(cmpOps, "rop"), A: rootDep, B: own}
+		}
 	case 0:
 		cond = g.pred(cx)
 	case 1:
